@@ -10,7 +10,7 @@ use ohsl::{Banded, Cmplx, Vector};
 
 const TAG: u64 = 0xC04;
 fn tau(n: usize) -> f64 { 4096.0 * n as f64 * U }
-pub const CLASSES: [&str; 6] = ["positive", "mixed-sign", "negative-diagonal", "zero-diagonal", "tiny-subdiagonal", "zeros-in-band"];
+pub const CLASSES: [&str; 7] = ["positive", "mixed-sign", "negative-diagonal", "zero-diagonal", "tiny-subdiagonal", "zeros-in-band", "small-alphabet-dominant"];
 
 fn inband(i: usize, j: usize, m1: usize, m2: usize) -> bool { j <= i + m2 && i <= j + m1 }
 
@@ -24,6 +24,7 @@ pub fn gen_band(rng: &mut Rng, n: usize, m1: usize, m2: usize, class: usize) -> 
             2 => if i == j { Rat::int(-rng.int(1, 9)) } else { Rat::int(rng.int(-9, 9)) },
             3 => if i == j && m1 >= 1 { Rat::ZERO } else { Rat::int(rng.nzint(9)) },
             4 => if i == j { Rat::int(-rng.int(1, 4)) } else if i == j + 1 { Rat::new(rng.int(1, 3) as i128, 1 << 30) } else { Rat::int(rng.int(-4, 4)) },
+            6 => if i == j { Rat::int(rng.int(6, 9)) } else { Rat::int(rng.int(0, 2)) }, // small alphabet: equal entries abound
             _ => if rng.chance(0.3) { Rat::ZERO } else { Rat::int(rng.nzint(9)) },
         }
     })
@@ -325,7 +326,22 @@ fn history_case(st: &mut Stats, rng: &mut Rng) {
     let mut b = build(&d, m1, m2, Rat::int(rng.int(-9, 9)));
     let mut log: Vec<String> = vec![format!("start n={} m1={} m2={} dense={}", n, m1, m2, d.show())];
     let steps = rng.usize(3, 14);
-    for _ in 0..steps {
+    // a clone taken at a random moment lives on next to the original: both are queried (det / solve) after later
+    // mutations and factorisations of the other one, each against its own model
+    let clone_at = rng.usize(0, steps);
+    let mut twin: Option<(Banded<Rat>, DM<Rat>)> = None;
+    for stepno in 0..steps {
+        if stepno == clone_at { twin = Some((b.clone(), d.clone())); log.push("twin = clone()".into()); }
+        if let Some((tb, td)) = &twin {
+            if rng.chance(0.4) {
+                if let Outcome::Ok((det, _, inv)) = catch(|| exact_det_rank_inv(td)) {
+                    st.eval();
+                    match catch(|| tb.det()) { Outcome::Ok(x) => if x != det { st.violation("C04:history:clone-not-independent", format!("twin.det() = {:?} expected {:?} (twin model {}) after {:?}", x, det, td.show(), log)); return; }, _ => {} }
+                    if let Some(inv) = inv { let rhs: Vec<Rat> = (0..n).map(|_| Rat::int(rng.int(-9, 9))).collect(); if let (Outcome::Ok(xt), Outcome::Ok(x)) = (catch(|| inv.mulvec(&rhs)), catch(|| tb.solve(&vec_to_ohsl(&rhs)))) { if x.vec != xt { st.violation("C04:history:clone-not-independent", format!("twin.solve = {:?} expected {:?} after {:?}", x.vec, xt, log)); return; } } }
+                }
+                if !band_eq(tb, td, m1, m2) { st.violation("C04:history:clone-not-independent", format!("twin entries changed after {:?}", log)); return; }
+            }
+        }
         let op = rng.below(12);
         let c = Rat::int(rng.nzint(5));
         let name: String;
@@ -377,13 +393,18 @@ pub fn triples() -> Vec<(usize, usize, usize)> {
 pub fn run(ctx: &Ctx) -> Report {
     let tr = triples();
     let reps = ctx.vol(3, 120);
-    let units = tr.len() as u64 * 6;
+    let units = tr.len() as u64 * 7;
     let stats = par_run(ctx, TAG, units, |u, rng, st| {
-        let (n, m1, m2) = tr[(u / 6) as usize];
-        let class = (u % 6) as usize;
+        let (n, m1, m2) = tr[(u / 7) as usize];
+        let class = if u % 7 == 6 { 6 } else { (u % 7) as usize };
         for _ in 0..reps {
-            let d = gen_band(rng, n, m1, m2, class);
-            let pads = (Rat::int(rng.int(-9, 9)), Rat::new(rng.int(-99, 99) as i128, 7));
+            let mut d = gen_band(rng, n, m1, m2, class);
+            let mut pads = (Rat::int(rng.int(-9, 9)), Rat::new(rng.int(-99, 99) as i128, 7));
+            if class == 6 {
+                // mostly mirrored (symmetric where both positions are in band) with a few asymmetric entries; zero padding in one build
+                for i in 0..n { for j in 0..i { if inband(i, j, m1, m2) && inband(j, i, m1, m2) && rng.chance(0.8) { d.a[i][j] = d.a[j][i]; } } }
+                pads.0 = Rat::ZERO;
+            }
             judge_exact::<Rat>(st, rng, CLASSES[class], &d, m1, m2, pads, |r| Rat::int(r.int(-9, 9)));
             let dc = to_c(&d, rng, m1, m2);
             let padc = (CRat::new(pads.0, Rat::int(3)), CRat::new(pads.1, Rat::int(-5)));
@@ -395,7 +416,7 @@ pub fn run(ctx: &Ctx) -> Report {
         }
     });
     let mut rep = Report::new(stats,
-        "all 385 triples (n,m1,m2), 1<=n<=10, 0<=m1,m2<n x 6 value classes (positive, mixed sign, negative diagonal, zero diagonal with nonzero sub-diagonal, tiny 2^-30 sub-diagonal under O(1) negative diagonal, zeros inside the band) x {Rat, CRat, f64, Complex<f64>} x two different padding fills, 3 (quick)/120 (thorough) random draws each; per case: every (i,j) access, B*v, det, solve, 18 arithmetic forms, fill_band for every band. Plus random histories on one live object: det/solve/product queries interleaved with index writes, every compound assignment and fill_band, compared with the dense model after every step. Non-trivial: n>=2; distinct = distinct (type,class,triple,values) hashes");
+        "all 385 triples (n,m1,m2), 1<=n<=10, 0<=m1,m2<n x 7 value classes (small-alphabet nearly symmetric dominant with zero padding, positive, mixed sign, negative diagonal, zero diagonal with nonzero sub-diagonal, tiny 2^-30 sub-diagonal under O(1) negative diagonal, zeros inside the band) x {Rat, CRat, f64, Complex<f64>} x two different padding fills, 3 (quick)/120 (thorough) random draws each; per case: every (i,j) access, B*v, det, solve, 18 arithmetic forms, fill_band for every band. Plus random histories on one live object: det/solve/product queries interleaved with index writes, every compound assignment and fill_band, compared with the dense model after every step. Non-trivial: n>=2; distinct = distinct (type,class,triple,values) hashes");
     rep.assumptions = vec![
         "float data are integers/dyadics, so exact determinant, nonsingularity and kappa_inf come from the Rat/CRat model; solve/det demands only when kappa_inf <= 1e8".into(),
         "solve on exactly singular matrices is unconstrained".into(),
